@@ -6,6 +6,12 @@ parser.ParseReader / parser.ParseFrugal) and by the Coq model (Gen/Grammar.v run
 interpreter with the transcribed actions, Judge/JParser.v); parse trees and error lists must
 agree exactly.  Direct oracle (no model): parse(render(model)) == canon(model) on the real
 parser, and the `-gen json` descriptor agrees with the model as an independent second view.
+Programs (ParseFrugal on several files): the model side is Model/ParserFiles.v parse_program, which is
+Model/CompilerValidate.v cparse_program (the one transcription of Frugal.validate / parseFrugal, C11) run
+on the PEG model's own parse trees; valid programs must be accepted with exactly the declared trees,
+programs with one semantic fault (c10_gen.FAULTS injected into generated declarations, REPAIRED_CHECKS as
+fixed texts, each also behind an include) must be rejected with the diagnostic of that check, and the
+model must give the same answer and, for validate's diagnostics, the same text.
 Static: grammar.peg and the generated grammar.peg.go (what runs, and what Gen/Grammar.v is regenerated
 from) must describe the same parser (props/c10_pegsync.py); any difference is a violation.
 """
@@ -279,8 +285,11 @@ def break_typedef_cycles(m):
             d["type"] = {"name": b"i32", "key": None, "val": None, "anns": []}
 
 
-def gen_program(ctx, rng, idx):
+def gen_program(ctx, rng, idx, fault=None):
+    """a valid program of 1-4 files; with [fault], the same with one semantic fault (G.FAULTS) injected into one
+    reachable file before rendering: ParseFrugal must reject it with the diagnostic of that check"""
     nfiles = rng.choice([1, 1, 2, 2, 3, 4])
+    gens = {}
     names = []
     for i in range(nfiles):
         stem = ("f%d_%d" % (idx, i)).encode()
@@ -302,10 +311,35 @@ def gen_program(ctx, rng, idx):
         extra = ["scope"] * rng.choice([0, 2, 3]) + ["service"] * rng.choice([0, 1, 2])
         m = gen.model(includes=incs, extra_kinds=extra)
         break_typedef_cycles(m)
+        if rng.random() < 0.3:
+            G.alias_throws(gen, m)          # throws through a typedef of an exception: valid
         models[names[i]] = m
         envs[names[i]] = m
+        gens[names[i]] = gen
+    if fault is not None:
+        # one file of the program (the root or a file it includes, directly or not) gets one semantic fault
+        reach = reachable_files(names[0], models)
+        victim = rng.choice(sorted(reach))
+        touched = G.inject_fault(gens[victim], models[victim], fault)
     files = {n: G.Renderer(rng).render(models[n]) for n in names}
-    return {"files": files, "root": names[0], "models": models}
+    prog = {"files": files, "root": names[0], "models": models}
+    if fault is not None:
+        prog.update({"mutated": True, "expect": "reject", "fault": fault, "fault_in": victim.decode(),
+                     "fault_at": touched.decode("utf8", "backslashreplace"), "expect_msg": G.FAULT_MSG[fault]})
+    return prog
+
+
+def reachable_files(root, models):
+    seen, todo = set(), [root]
+    while todo:
+        n = todo.pop()
+        if n in seen:
+            continue
+        seen.add(n)
+        for k, d in models[n]["decls"]:
+            if k == "include":
+                todo.append(os.path.normpath(os.path.join(os.path.dirname(n.decode()), d["value"].decode())).encode())
+    return seen
 
 
 def oracle_program(prog, resp):
@@ -344,7 +378,58 @@ def judge_case_files(prog, resp):
     files = [[n, t] for n, t in sorted(prog["files"].items())]
     code = resp.get("code", 103)
     tree = G.from_json(resp["ast"]) if code == 0 else []
-    return [2, files, prog["root"], code, tree]
+    return [2, files, prog["root"], code, tree, (resp.get("msg") or "").encode("utf8") if code == 1 else b""]
+
+
+# (text, the diagnostic ParseFrugal must give); nbinc.frugal = NBINC is beside every one of them
+NBINC = b"service Base {}\nexception IncExc {}\nstruct IncS {}\n"
+REPAIRED_CHECKS = [
+    (b"\nservice Svc7 extends NoSuchSvc7 { void ping() }\n", "Invalid extends NoSuchSvc7 for service Svc7"),
+    (b"\nservice Svc7 extends nosuchinc.Svc { void ping() }\n", "Invalid extends nosuchinc.Svc for service Svc7"),
+    (b"\ninclude \"nbinc.frugal\"\nservice Svc7 extends nbinc.Nope { void ping() }\n", "Invalid extends nbinc.Nope for service Svc7"),
+    (b"\ninclude \"nbinc.frugal\"\nservice Svc7 extends nbinc.IncS {}\n", "Invalid extends nbinc.IncS for service Svc7"),
+    (b"\ninclude \"nbinc.frugal\"\nservice Svc7 extends nbinc.Base.x {}\n", "Invalid extends nbinc.Base.x for service Svc7"),
+    (b"\nservice Svc7 extends Svc7 {}\n", "Circular extends Svc7"),
+    (b"\nservice Svc7 extends Svc6 {}\nservice Svc6 extends Svc7 {}\n", "Circular extends Svc7"),
+    (b"\nservice Svc7 extends Svc6 {}\nservice Svc6 extends Svc5 {}\nservice Svc5 extends Svc6 { void ping() }\n",
+     "Circular extends Svc7"),
+    (b"\nstruct NotExc7 {}\nservice Svc7 { void f() throws (1: NotExc7 e) }\n",
+     "Invalid exception type NotExc7 for Svc7.f: not an exception"),
+    (b"\nservice Svc7 { void f() throws (1: string e) }\n", "Invalid exception type string for Svc7.f: not an exception"),
+    (b"\nexception Exc7 {}\nservice Svc7 { void f() throws (1: list<Exc7> e) }\n",
+     "Invalid exception type list for Svc7.f: not an exception"),
+    (b"\nenum En7 { A }\ntypedef En7 Alias7\nservice Svc7 { i32 f() throws (1: Alias7 e) }\n",
+     "Invalid exception type Alias7 for Svc7.f: not an exception"),
+    (b"\ninclude \"nbinc.frugal\"\nservice Svc7 { void f() throws (1: nbinc.IncS e) }\n",
+     "Invalid exception type nbinc.IncS for Svc7.f: not an exception"),
+    (b"\nstruct Dup7 { 1: i32 a, 2: string a }\n", "Duplicate field name a in struct Dup7"),
+    (b"\nunion Dup7 { 1: i32 a; 2: i32 b; 3: i64 a }\n", "Duplicate field name a in struct Dup7"),
+    (b"\nexception Dup7 { 1: string msg, 2: string msg }\n", "Duplicate field name msg in struct Dup7"),
+    (b"\nservice Svc7 { void f(1: i32 a, 2: i32 a) }\n", "Duplicate field name a in method Svc7.f"),
+    (b"\nexception Exc7 {}\nexception Exc6 {}\nservice Svc7 { void f() throws (1: Exc7 a, 1: Exc6 b) }\n",
+     "Duplicate field id 1 in method Svc7.f"),
+    (b"\nexception Exc7 {}\nservice Svc7 { void f() throws (1: Exc7 a, 2: Exc7 a) }\n",
+     "Duplicate field name a in method Svc7.f"),
+    (b"\nservice Svc7 { void f(1: i32 a, 1: i32 b) }\n", "Duplicate field id 1 in method Svc7.f"),
+    (b"\nstruct Dup7 { -4: i32 a, -4: i32 b }\n", "Duplicate field id -4 in struct Dup7"),
+    (b"\nstruct Dup7 { 0: i32 a, 5: i32 c, 0: i32 b }\n", "Duplicate field id 0 in struct Dup7"),
+    (b"\nservice Svc7 { void f(-2: i32 a, -2: i32 b) }\n", "Duplicate field id -2 in method Svc7.f"),
+    (b"\nexception Exc7 {}\nservice Svc7 { void f() throws (-1: Exc7 a, -1: Exc7 b) }\n",
+     "Duplicate field id -1 in method Svc7.f"),
+    (b"\nscope Sc7 prefix a.{zone}.b.{zone} { op: E }\n", "Duplicate prefix variable zone in scope Sc7"),
+]
+REPAIRED_CHECK_TEXTS = [t for t, _ in REPAIRED_CHECKS if b"include" not in t]
+
+
+VALID_NEIGHBOUR_TEXTS = [
+    b"service Svc6 {}\nservice Svc7 extends Svc6 { void ping() }\n",
+    b"service Svc7 extends Svc6 {}\nservice Svc6 extends Svc5 {}\nservice Svc5 { void ping() }\n",
+    b"include \"nbinc.frugal\"\nservice Svc7 extends nbinc.Base {}\n",
+    b"exception Exc7 {}\ntypedef Exc7 Alias7\ntypedef Alias7 Alias6\nservice Svc7 { void f() throws (1: Alias6 e) }\n",
+    b"include \"nbinc.frugal\"\ntypedef nbinc.IncExc Alias7\nservice Svc7 { void f() throws (1: nbinc.IncExc a, 2: Alias7 b) }\n",
+    b"struct S7 { 1: i32 a, 2: string A }\nservice Svc7 { void f(1: i32 a, 2: i32 b) throws () }\n",
+    b"exception Exc7 {}\nservice Svc7 { void f(1: i32 a) throws (1: Exc7 a) }\n",
+]
 
 
 def mutate_program(rng, prog):
@@ -372,8 +457,18 @@ def mutate_program(rng, prog):
         t = t + b"\nservice Svc8 { oneway i32 f() }\n"
     else:
         t = t + b"\ntypedef list Bare9\n"
+    expect = None
+    if rng.random() < 0.45:
+        # the checks added by the repairs of validate, as appended text (the model-level faults of
+        # gen_program(fault=...) put the same constructs inside the generated declarations)
+        t = files[name] + rng.choice(REPAIRED_CHECK_TEXTS)
+        expect = "reject"
     files[name] = t
-    return {"files": files, "root": prog["root"], "models": prog["models"], "mutated": True}
+    out = {"files": files, "root": prog["root"], "models": prog["models"], "mutated": True}
+    if expect and name in reachable_files(prog["root"], prog["models"]):
+        out["expect"] = expect
+        out["fault"] = "appended invalid declaration"
+    return out
 
 
 def shrink_failure(ctx, model, rounds=8):
@@ -566,12 +661,35 @@ def run(ctx, br):
                           "hazard": hz})
     n_good = len(progs)
     progs += [mutate_program(rng, rng.choice(progs[:n_prog])) for _ in range(max(4, n_prog // 2))]
+    # semantic faults inside generated declarations: every kind in every run, then at random
+    n_faulty = len(G.FAULTS) * (1 if quick else 8)
+    progs += [gen_program(ctx, rng, 1000 + i, fault=G.FAULTS[i % len(G.FAULTS)]) for i in range(n_faulty)]
     # validation of scope prefixes (validateScopeTypes): a prefix naming a variable twice is rejected since the
-    # repair of C11-K12; replayed by the judge on Model/ParserFiles.v validate_scopes like any other program
+    # repair of C11-K12; replayed by the judge on Model/ParserFiles.v parse_program (= Model/CompilerValidate.v cparse_program) like any other program
     for nm, txt, exp in ((b"dupvar.frugal", b"struct E {}\nscope Sc prefix a.{zone}.{zone} { op: E }\n", "reject"),
                          (b"dupvar2.frugal", b"struct E {}\nscope Ok prefix {a}.{b} { op: E }\nscope Sc prefix {u}.x.{v}.{u} { op: E }\n", "reject"),
                          (b"twovars.frugal", b"struct E {}\nscope Sc prefix a.{zone}.{user} { op: E }\n", "accept")):
         progs.append({"files": {nm: txt}, "root": nm, "models": {}, "mutated": True, "expect": exp})
+    # every check the repairs of validate added, each alone in a small file (all of them in every run), and their
+    # valid neighbours
+    for i, (txt, msg) in enumerate(REPAIRED_CHECKS):
+        nm = ("chk%d.frugal" % i).encode()
+        progs.append({"files": {nm: b"struct E {}\n" + txt, b"nbinc.frugal": NBINC}, "root": nm, "models": {},
+                      "mutated": True, "expect": "reject", "fault": "invalid declaration " + repr(txt.strip().decode()),
+                      "fault_in": nm.decode(), "expect_msg": "^" + re.escape(msg) + "$"})
+        # and reached through an include: parseFrugal wraps the diagnostic of the included file
+        if i % 3 == 0:
+            top = ("top%d.frugal" % i).encode()
+            progs.append({"files": {top: b"include \"" + nm + b"\"\n", nm: b"struct E {}\n" + txt, b"nbinc.frugal": NBINC},
+                          "root": top, "models": {}, "mutated": True, "expect": "reject",
+                          "fault": "include of a file with the invalid declaration " + repr(txt.strip().decode()),
+                          "fault_in": nm.decode(),
+                          "expect_msg": "^" + re.escape("Include %s: %s" % (nm.decode(), msg)) + "$"})
+    for i, txt in enumerate(VALID_NEIGHBOUR_TEXTS):
+        nm = ("nb%d.frugal" % i).encode()
+        progs.append({"files": {nm: txt, b"nbinc.frugal": NBINC}, "root": nm,
+                      "models": {}, "mutated": True, "expect": "accept",
+                      "fault": "valid declaration " + repr(txt.strip().decode())})
     preqs = []
     for i, p in enumerate(progs):
         preqs.append({"op": "files", "dir": os.path.join(ctx.rundir, "prog", str(i)),
@@ -588,9 +706,13 @@ def run(ctx, br):
             if r.get("code", 0) >= 100 and not any(b"typedef list Bare9" in t for t in p["files"].values()):
                 why = "ParseFrugal crashed or hung: %s" % (r.get("panic") or r.get("msg"))
             elif p.get("expect") == "reject" and r.get("code") == 0:
-                why = "a scope prefix that names a variable twice was accepted"
+                why = "an invalid program was accepted (%s)" % p.get("fault", "a scope prefix that names a variable twice")
             elif p.get("expect") == "accept" and r.get("code") != 0:
-                why = "a scope prefix with distinct variables was rejected: %s" % r.get("msg")
+                why = "a valid program was rejected (%s): %s" % (p.get("fault", "a scope prefix with distinct variables"),
+                                                                 r.get("msg"))
+            elif p.get("expect_msg") and not re.search(p["expect_msg"], r.get("msg", "")):
+                why = "an invalid program (%s in %s) was rejected for another reason: %s" % (
+                    p["fault"], p["fault_in"], r.get("msg", "")[:300])
         else:
             why = oracle_program(p, r)
         if why:
@@ -598,7 +720,9 @@ def run(ctx, br):
             hz = p.get("hazard")
             ctx.violation("C10 oracle (ParseFrugal): " + why,
                           {"files": {n.decode(): t.decode("utf8", "backslashreplace") for n, t in p["files"].items()},
-                           "root": p["root"].decode(), "hazard": hz, "observed": {k: r.get(k) for k in ("code", "msg")}},
+                           "root": p["root"].decode(), "hazard": hz, "fault": p.get("fault"),
+                           "fault_in": p.get("fault_in"), "fault_at": p.get("fault_at"),
+                           "observed": {k: r.get(k) for k in ("code", "msg")}},
                           signature={"hazard": hz} if hz else None)
     json_fail = 0
     n_json = 0
@@ -625,7 +749,7 @@ def run(ctx, br):
                           {"files": {n.decode(): t.decode("utf8", "backslashreplace") for n, t in p["files"].items()},
                            "root": p["root"].decode(), "observed": {k: r.get(k) for k in ("code", "msg", "panic")},
                            "no_failing_input_found": True,
-                           "broken": "correspondence JParser.judge_files (Model/ParserFiles.v disagrees with parser.ParseFrugal)"})
+                           "broken": "correspondence JParser.judge_files (Model/ParserFiles.v parse_program, i.e. Model/CompilerValidate.v cparse_program on the PEG model's parse trees, disagrees with parser.ParseFrugal)"})
     mism = [i for i, v in enumerate(verdicts) if v < 0]
     for i in mism:
         c, r = cases[i], resps[i]
@@ -652,6 +776,11 @@ def run(ctx, br):
         k = c["kind"] + ("/" + c["hazard"] if c["hazard"] else "")
         hist[k] = hist.get(k, 0) + 1
     hist["programs"] = len(progs)
+    hist["programs/valid"] = n_good
+    for p in progs:
+        if p.get("fault_in"):
+            hist["programs/fault/" + p["fault"]] = hist.get("programs/fault/" + p["fault"], 0) + 1
+    hist["programs/appended_invalid"] = len([p for p in progs if p.get("fault") == "appended invalid declaration"])
     distinct = len({c["text"] for c, r in zip(cases, resps) if c["kind"] == "valid" and r.get("code") == 0 and len(c["canon"]) and
                     sum(len(s) for s in c["canon"]) >= 1})
     sizes = [len(c["text"]) for c in cases]
@@ -665,7 +794,10 @@ def run(ctx, br):
         "distinct_nontrivial": distinct,
         "rule": "seeded IDL models (all declaration kinds, annotations in every position, doc comments, containers, "
                 "constants incl. lists/maps/identifier references/doubles, includes across 1-4 files) rendered in random "
-                "lexical styles; hazard cases (one Thrift-valid construct the grammar still mishandles each) and targeted "
+                "lexical styles; programs with one semantic fault injected into a generated declaration of a reachable "
+                "file (dangling / circular extends, throws of a non-exception directly, through a container or an alias, "
+                "duplicate names / ids among fields, arguments, exceptions, duplicate prefix variables), each check also "
+                "alone in a small file with its valid neighbours; hazard cases (one Thrift-valid construct the grammar still mishandles each) and targeted "
                 "cases for every construct the pinned grammar mishandled (repaired); mutated texts. "
                 "non-trivial = accepted well-formed text with >= 1 declaration; distinct by text",
         "traces_validated_against_impl": len([v for v in verdicts if v >= 0]) + frag["instances_accepted_by_judge"],
